@@ -223,7 +223,7 @@ ASSUMED_OUTSIDE_MODEL = ['as_ptr_range']   # obligations whose source text menti
 # "assumed: outside the verifier's memory model" (pointer provenance), matched by text, listed by name
 
 
-def run_unit(unit, want_canary=True, rlimit=None):
+def run_unit(unit, want_canary=True, rlimit=None, stability_seeds=()):
     """-> dict with everything the driver needs for one V unit"""
     unit_dir = os.path.join(VERIF, 'units', unit)
     os.makedirs(WORK, exist_ok=True)
@@ -369,6 +369,14 @@ def run_unit(unit, want_canary=True, rlimit=None):
             fn['modulo_assumed'] = True
         elif not fn['success'] and fn['name'] not in fail_fns and not res['undecided']:
             res['undecided'].append('function %s reported unsuccessful without a classified diagnostic' % fn['name'])
+
+    # ---- proof stability (thorough tier): same file, other SMT seeds; reported, never a verdict -----------
+    res['stability'] = []
+    for seed in stability_seeds:
+        sr = run_verus(path, rlimit, extra=('--smt-option', 'smt.random_seed=%d' % seed))
+        sv = (sr['json'] or {}).get('verification-results', {})
+        res['stability'].append({'seed': seed, 'verified': sv.get('verified'), 'errors': sv.get('errors'),
+                                 'wall_s': round(sr['wall_s'], 2)})
 
     # ---- canary run ---------------------------------------------------------------------------
     res['canary'] = None
